@@ -391,3 +391,54 @@ Proof.
     rewrite U1, app_nil_r. split; [reflexivity|].
     intros w. unfold live. rewrite U3, U4, U5. reflexivity.
 Qed.
+
+(** *** a watcher that joins late (NewWatcher = one atomic step between two snapshots) *)
+Lemma exec_app q pan : forall a b t st,
+  exec q pan t (a ++ b) st = exec q pan (t + N.of_nat (List.length a)) b (exec q pan t a st).
+Proof.
+  induction a as [|[sc cfg] r IH]; intros b t st.
+  - cbn. rewrite N.add_0_r. reflexivity.
+  - cbn [app exec List.length]. rewrite IH. f_equal. lia.
+Qed.
+
+Lemma step_reg_diff q pan t sc cfg st n : visits n (ords sc) ->
+  c_reg (fst (step q pan t sc cfg st) n) = fst (diff_of q t (c_reg (fst st n)) (cfg n)) /\
+  c_diff (fst (step q pan t sc cfg st) n) = snd (diff_of q t (c_reg (fst st n)) (cfg n)).
+Proof.
+  intros Hv. destruct (step_spec q pan t sc cfg st n Hv) as [S _].
+  rewrite S, cell_step_closed. unfold cell_step_cf. cbn [fst c_reg c_diff]. split; reflexivity.
+Qed.
+
+Lemma late_run_ideal pan cats n : forall post t st x,
+  good_steps n post ->
+  x n = fl cats (c_reg (fst st n)) ->
+  late_run ideal pan cats t post st x n = fl cats (c_reg (fst (exec ideal pan t post st) n)).
+Proof.
+  induction post as [|[sc cfg] r IH]; intros t st x Hg Hx.
+  - cbn. exact Hx.
+  - inversion Hg as [|a l Hv Hg']; subst. cbn [fst] in Hv.
+    cbn [late_run exec]. apply IH; [exact Hg'|].
+    unfold late_next. destruct (step_reg_diff ideal pan t sc cfg st n Hv) as [R D].
+    rewrite D, R, Hx. apply watch_ents.
+Qed.
+
+Lemma join_view_fl cats st n : join_view cats st n = fl cats (c_reg (fst st n)).
+Proof. reflexivity. Qed.
+
+Lemma late_watcher_equals_snapshot pan cats pre post sc cfg n :
+  good_steps n (pre ++ post ++ [(sc, cfg)]) ->
+  (* the first event of a watcher created after the snapshots [pre ++ post ++ [cfg]] ... *)
+  option_map e_spec (join_view cats (run ideal pan (pre ++ post ++ [(sc, cfg)])) n) = filtc cats (cfg n) /\
+  (* ... and the entities of a watcher created after [pre], once [post ++ [cfg]] have been applied *)
+  option_map e_spec (late_run ideal pan cats (N.of_nat (List.length pre)) (post ++ [(sc, cfg)])
+                              (run ideal pan pre) (join_view cats (run ideal pan pre)) n) = filtc cats (cfg n).
+Proof.
+  intros Hg.
+  assert (R : option_map e_spec (c_reg (fst (run ideal pan (pre ++ post ++ [(sc, cfg)])) n)) = cfg n).
+  { rewrite app_assoc in Hg |- *. apply reg_is_snapshot. exact Hg. }
+  split.
+  - rewrite join_view_fl, fl_spec, R. reflexivity.
+  - destruct (good_steps_app _ _ _ Hg) as [_ Hg2].
+    rewrite (late_run_ideal pan cats n _ _ _ _ Hg2 (join_view_fl cats _ n)).
+    unfold run in *. rewrite exec_app in R. cbn [N.add] in R. rewrite fl_spec, R. reflexivity.
+Qed.
